@@ -65,6 +65,21 @@ def add_random_controls(spec, rng, n=(1, 5), kinds=('time', 'clock', 'tank', 'pr
             else:
                 val = _round(max(1.0, v['setting'] + rng.choice([-15.0, -5.0, 8.0, 20.0])), 4)
             cs = {'kind': 'time', 'name': name, 'time': when(), 'target': v['name'], 'attr': 'setting', 'value': val}
+        elif kind == 'rule_setting' and valves:
+            # a rule that changes a valve setting in its THEN and in its ELSE clause (each passes through its own unit conversion in the INP writer)
+            v = rng.choice(spec['valves'])
+
+            def newval():
+                if v['type'] == 'TCV':
+                    return _round(rng.choice([0.5, 5.0, 60.0, 400.0]), 4)
+                if v['type'] == 'FCV':
+                    return _round(v['setting'] * rng.choice([0.3, 0.6, 1.5, 2.0]), 5)
+                return _round(max(1.0, v['setting'] + rng.choice([-15.0, -5.0, 8.0, 20.0])), 4)
+            cs = {'kind': 'rule', 'name': name, 'priority': rng.randint(1, 5),
+                  'cond': {'kind': 'simtime', 'op': rng.choice(['>=', '>=', '<', '<=']), 'time': when()},
+                  'then': [{'target': v['name'], 'attr': 'setting', 'value': newval()}]}
+            if rng.random() < 0.7:
+                cs['else'] = [{'target': v['name'], 'attr': 'setting', 'value': newval()}]
         elif kind == 'rule_time':
             t1 = when()
             cs = {'kind': 'rule', 'name': name, 'priority': rng.randint(1, 5),
